@@ -239,6 +239,8 @@ V("c10-sensor-rewinds-target", "C10", "violation", "C10.R1", edits=[(SB, "      
 V("c10-scenario-resets-agent-time", "C10", "violation", "C10.R1", edits=[(SC, "            for target_id, target in self.target_agents.items():\n                self._target_store[target_id] = ray.put(target)\n", "            for target_id, target in self.target_agents.items():\n                target.time = self.clock.time\n                self._target_store[target_id] = ray.put(target)\n")])
 V("c10-update-info-moves-sensor", "C10", "violation", "C10.R1", edits=[(SA, "        self.sensors.time_last_tasked = sensor_change[\"time_last_tasked\"]\n", "        self.sensors.time_last_tasked = sensor_change[\"time_last_tasked\"]\n        self._time = sensor_change[\"time_last_tasked\"]\n")])
 V("c10-shared-dynamics", "C10", "violation", "C10.R4", edits=[(SC, "            dynamics=filter_dynamics,\n            time_cfg=self.scenario_config.time,", "            dynamics=target_dynamics,\n            time_cfg=self.scenario_config.time,")])
+V("c10-estimate-config-model-copy", "C10", "neutral", edits=[(SC, "        est_prop_cfg = deepcopy(self.scenario_config.propagation)\n", "        est_prop_cfg = self.scenario_config.propagation.model_copy()\n")], note="a shallow pydantic copy isolates a top-level field rebind")
+V("c10-estimate-config-model-validate-alias", "C10", "violation", "C10.R5", edits=[(SC, "        est_prop_cfg = deepcopy(self.scenario_config.propagation)\n", "        est_prop_cfg = type(self.scenario_config.propagation).model_validate(self.scenario_config.propagation)\n")], note="pydantic model_validate returns the same instance")
 V("c10-estimate-config-not-copied", "C10", "violation", "C10.R5", edits=[(SC, "        est_prop_cfg = deepcopy(self.scenario_config.propagation)\n", "        est_prop_cfg = self.scenario_config.propagation\n")])
 V("c10-truth-dynamics-from-estimation-model", "C10", "violation", "C10.R5", edits=[(SBD, "            dynamics = dynamicsFactory(\n                target_cfg,\n                self.config.propagation,", "            dynamics = dynamicsFactory(\n                target_cfg,\n                self.config.estimation.sequential_filter,")])
 V("c10-join-after-predict", "C10", "violation", "C10.R6", edits=[(SC, "        self._agent_propagator.join()\n\n        if not self.scenario_config.propagation.truth_simulation_only:\n            self.logger.debug(\"Predict estimates...\")", "        if not self.scenario_config.propagation.truth_simulation_only:\n            self.logger.debug(\"Predict estimates...\")"), (SC, "        # Flush events from event stack\n", "        self._agent_propagator.join()\n        # Flush events from event stack\n")])
@@ -301,6 +303,11 @@ V("c18-covariance-about-stale-mean", "C18", "violation", "C18.R4", edits=[(ADF, 
 V("c18-spread-term-dropped", "C18", "violation", "C18.R4", edits=[(ADF, "            self.pred_p += weight * (model.pred_p + outer(x_diff_pred, x_diff_pred))\n            self.est_p += weight * (model.est_p + outer(x_diff_est, x_diff_est))\n\n        if observations:\n            self.true_y", "            self.pred_p += weight * (model.pred_p + outer(x_diff_pred, x_diff_pred))\n            self.est_p += weight * model.est_p\n\n        if observations:\n            self.true_y")])
 V("c18-likelihood-sign", "C18", "violation", "C18.R4", edits=[(GPF1, "self.model_likelihoods[num] = exp(-0.5 * model.nis) / sqrt(", "self.model_likelihoods[num] = exp(0.5 * model.nis) / sqrt(")])
 V("c18-converged-filter-from-prediction", "C18", "violation", "C18.R4", edits=[(ADF, "            est_x=self.est_x,\n            est_p=self.est_p,\n            dynamics=self.dynamics,", "            est_x=self.pred_x,\n            est_p=self.est_p,\n            dynamics=self.dynamics,")])
+V("c18-resume-before-prune", "C18", "violation", "C18.R5", edits=[(SMF, "                self.prune(incorrect_indices, observations)\n                self._resumeSequentialFiltering()\n", "                self._resumeSequentialFiltering()\n                self.prune(incorrect_indices, observations)\n")])
+V("c18-resume-with-two-models", "C18", "violation", "C18.R5", edits=[(SMF, "        if len(self.models) == 1:\n            # All, but a single model were pruned", "        if len(self.models) <= 2:\n            # All, but a single model were pruned")])
+V("c18-closing-prunes-below-threshold-only", "C18", "violation", "C18.R5", edits=[(SMF, "incorrect_indices = argwhere(self.model_weights < self.prune_percentage).flatten()", "incorrect_indices = argwhere(self.model_weights < self.prune_threshold).flatten()")])
+V("c18-gpb1-resume-before-compile", "C18", "violation", "C18.R5", edits=[(GPF1, "        self._compileUpdateStep(observations)\n        # No need to recheck maneuver detection if no obs\n        if not observations:", "        if observations and oneSidedChiSquareTest(self.nis, 1 - self.prune_percentage, self.true_y.shape[0]):\n            self._resumeSequentialFiltering()\n        self._compileUpdateStep(observations)\n        # No need to recheck maneuver detection if no obs\n        if not observations:")])
+V("c18-n-log-after-resume", "C18", "pass", edits=[(SMF, "                self._resumeSequentialFiltering()\n                msg = f\"SMM converged for {self.target_id} at {self.time}\"\n                self.logger.info(msg)\n", "                msg = f\"SMM converged for {self.target_id} at {self.time}\"\n                self.logger.info(msg)\n                self._resumeSequentialFiltering()\n")])
 V("c18-n-normalise-twice", "C18", "pass", edits=[(ADF, "        self.model_weights = self.model_weights / np_sum(self.model_weights)\n        self._compileUpdateStep(observations)", "        self.model_weights = self.model_weights / np_sum(self.model_weights)\n        self.model_weights = self.model_weights / np_sum(self.model_weights)\n        self._compileUpdateStep(observations)")])
 V("c18-n-inplace-division", "C18", "pass", edits=[(ADF, "        self.model_weights = self.model_weights / np_sum(self.model_weights)\n        self._compileUpdateStep(observations)", "        self.model_weights /= np_sum(self.model_weights)\n        self._compileUpdateStep(observations)")])
 
@@ -319,6 +326,21 @@ V("c15-thrust-frame-registry-swapped", "C15", "violation", "C15.R2", edits=[("da
 V("c15-sp-thrust-velocity-slots", "C15", "violation", "C15.R3", edits=[("dynamics/special_perturbations.py", "                a_perturbations += self.finite_thrust(concatenate((r_eci, v_eci)))[:3]", "                a_perturbations += self.finite_thrust(concatenate((r_eci, v_eci)))[3:]")])
 V("c15-n-end-selects-value", "C15", "pass", edits=[(FTF, "        if fpe_equals(_ival, 0.0) or fpe_equals(_fval, 0.0):\n            return 0.0\n        return _ival", "        if fpe_equals(_ival, 0.0) or fpe_equals(_fval, 0.0):\n            return 0.0\n        return _ival if time < self.start_time else _fval")])
 
+V("c12-true-anomaly-raw-arccos", "C12", "violation", "C12.R4", edits=[("physics/orbits/utils.py", "    anomaly = safeArccos(vdot(e_unit_vec, r_vec) / norm(r_vec))", "    anomaly = arccos(vdot(e_unit_vec, r_vec) / norm(r_vec))"), ("physics/orbits/utils.py", "from numpy import ", "from numpy import arccos, ")])
+V("c12-n-true-anomaly-clipped", "C12", "pass", edits=[("physics/orbits/utils.py", "    anomaly = safeArccos(vdot(e_unit_vec, r_vec) / norm(r_vec))", "    anomaly = arccos(clip(vdot(e_unit_vec, r_vec) / norm(r_vec), -1.0, 1.0))"), ("physics/orbits/utils.py", "from numpy import ", "from numpy import arccos, clip, ")])
+V("c12-eqe-config-retro-dropped", "C12", "violation", "C12.R2", edits=[("physics/orbits/elements.py", "            config.mean_longitude * const.DEG2RAD,\n            retro=config.retrograde,\n", "            config.mean_longitude * const.DEG2RAD,\n")])
+_C11_ALT = [
+    ("dynamics/terrestrial.py", "from ..physics.transforms.methods import ecef2eci\n", "from ..physics.transforms.methods import ecef2eci, eci2ecef\n"),
+    ("dynamics/terrestrial.py", "    def propagate(\n", "    @classmethod\n    def fromInertialState(cls, jd_start, x_eci):\n        return cls(jd_start, eci2ecef(x_eci, julianDateToDatetime(jd_start)))\n\n    def propagate(\n"),
+]
+V("c11-n-alt-constructor-same-instant", "C11", "pass", edits=_C11_ALT + [("dynamics/__init__.py", "        dynamics = Terrestrial(\n            clock.julian_date_start,\n            eci2ecef(agent_cfg.state.toECI(clock.datetime_start), clock.datetime_start),\n        )", "        dynamics = Terrestrial.fromInertialState(\n            clock.julian_date_start,\n            agent_cfg.state.toECI(clock.datetime_start),\n        )")])
+V("c11-alt-constructor-current-epoch", "C11", "violation", "C11.R2", edits=_C11_ALT + [("dynamics/__init__.py", "        dynamics = Terrestrial(\n            clock.julian_date_start,\n            eci2ecef(agent_cfg.state.toECI(clock.datetime_start), clock.datetime_start),\n        )", "        dynamics = Terrestrial.fromInertialState(\n            clock.julian_date_start,\n            agent_cfg.state.toECI(clock.datetime_epoch),\n        )")])
+FOVF = "sensors/field_of_view.py"
+_MW = "        azimuth_angle = abs(wrapAngleNegPiPi(pointing_azimuth - background_azimuth))\n"
+V("c14-n-manual-two-sided-wrap", "C14", "pass", edits=[(FOVF, "from ..physics.constants import DEG2RAD\n", "from ..physics.constants import DEG2RAD, PI, TWOPI\n"), (FOVF, _MW, "        delta = pointing_azimuth - background_azimuth\n        if delta > PI:\n            delta -= TWOPI\n        elif delta < -PI:\n            delta += TWOPI\n        azimuth_angle = abs(delta)\n")])
+V("c14-manual-one-sided-wrap", "C14", "violation", "C14.R1", edits=[(FOVF, "from ..physics.constants import DEG2RAD\n", "from ..physics.constants import DEG2RAD, PI, TWOPI\n"), (FOVF, _MW, "        delta = pointing_azimuth - background_azimuth\n        if delta > PI:\n            delta -= TWOPI\n        azimuth_angle = abs(delta)\n")])
+V("c14-mask-bounds-swapped-via-locals", "C14", "violation", "C14.R2", edits=[("sensors/sensor_base.py", "        if self.az_mask[0] > self.az_mask[1] and (\n            azimuth >= self.az_mask[0] or azimuth <= self.az_mask[1]\n        ):", "        az_lower, az_upper = self.az_mask\n        if az_lower > az_upper and (azimuth >= az_upper or azimuth <= az_lower):")])
+V("c14-n-mask-bounds-via-locals", "C14", "pass", edits=[("sensors/sensor_base.py", "        if self.az_mask[0] > self.az_mask[1] and (\n            azimuth >= self.az_mask[0] or azimuth <= self.az_mask[1]\n        ):", "        az_lower, az_upper = self.az_mask\n        if az_lower > az_upper and (azimuth >= az_lower or azimuth <= az_upper):")])
 # ------------------------------------------------------------------------------------ C13
 SPF = "dynamics/special_perturbations.py"
 GPO = "physics/bodies/gravitational_potential.py"
@@ -408,3 +430,10 @@ V("c08-mapping-keyed-by-submission", "C08", "violation", "C08.R5", edits=[(PI_, 
 V("c14-umbra-test-sum", "C14", "violation", "C14.R5", edits=[(SU, "    if c < abs(b - a):\n        return 0.0", "    if c < abs(b + a):\n        return 0.0")])
 V("c14-sunward-test-reversed", "C14", "violation", "C14.R5", edits=[(SU, "    if norm(sun_eci_position) >= norm(sat_sun_vector):", "    if norm(sun_eci_position) <= norm(sat_sun_vector):")])
 V("c14-partial-area-sign", "C14", "violation", "C14.R5", edits=[(SU, "        return 1.0 - A / (PI * a**2)", "        return A / (PI * a**2)")])
+
+_TB_OLD = '    third_bodies = {}\n    for body in configuration:\n        if body.lower() == "sun":\n            third_bodies[Sun] = "sun"\n        elif body.lower() == "moon":\n            third_bodies[Moon] = "moon"\n        elif body.lower() == "jupiter":\n            third_bodies[Jupiter] = "jupiter"\n        elif body.lower() == "saturn":\n            third_bodies[Saturn] = "saturn"\n        elif body.lower() == "venus":\n            third_bodies[Venus] = "venus"\n        else:\n            raise ValueError(f"Incorrect option for \'third_bodies\' in config: {body}")\n'
+_TB_NEW = '    for body in configuration:\n        name = body.lower()\n        if name not in THIRD_BODY_LOOKUP:\n            raise ValueError(f"Incorrect option for \'third_bodies\' in config: {body}")\n        third_bodies[THIRD_BODY_LOOKUP[name]] = name\n'
+_TB_TABLE = 'THIRD_BODY_LOOKUP = {"sun": Sun, "moon": Moon, "jupiter": Jupiter, "saturn": Saturn, "venus": Venus}\n\n\ndef thirdBodyFactory('
+V("c13-n-third-body-table", "C13", "pass", edits=[(SPF, "def thirdBodyFactory(", _TB_TABLE), (SPF, _TB_OLD, "    third_bodies = {}\n" + _TB_NEW)])
+V("c13-third-body-table-shared-default", "C13", "violation", "C13.R1", edits=[(SPF, "def thirdBodyFactory(configuration: list[str]) -> dict:", _TB_TABLE + "configuration: list[str], third_bodies: dict = {}) -> dict:"), (SPF, _TB_OLD, _TB_NEW)])
+V("c13-third-body-table-wrong-class", "C13", "violation", "C13.R1", edits=[(SPF, "def thirdBodyFactory(", _TB_TABLE.replace('"moon": Moon', '"moon": Sun')), (SPF, _TB_OLD, "    third_bodies = {}\n" + _TB_NEW)])
